@@ -9,6 +9,8 @@ def run(ctx):
     rounds = [(150, ctx.seed, ())] if ctx.quick() else [(400, ctx.seed + k, ()) for k in range(4)]
     # lagging receivers: backlogs of tens of MiB (or thousands of messages) on one channel before anything is received
     rounds.append((6 if ctx.quick() else 30, ctx.seed + 100, ("-lag",)))
+    # a transport that delivers the byte stream in segments of 1-7 bytes (frame headers straddle reads), mostly without compression
+    rounds.append((40 if ctx.quick() else 200, ctx.seed + 200, ("-frag",)))
     states = trans = events = runs = 0
     samples, cfgs = [], []
     for n, seed, extra in rounds:
